@@ -86,3 +86,18 @@ Example copy_example :
   needed ex_tid (reach ex_tid t4) [(Data, 0)] [t4] = [(Tree, 2); (Data, 3); (Tree, 0)] /\
   copy_order (needed ex_tid (reach ex_tid t4) [(Data, 0)] [t4]) = [(Data, 3); (Tree, 2); (Tree, 0)].
 Proof. vm_compute. repeat split. Qed.
+
+(* The loop as written (merge_loop, exact BinaryHeap) on inputs that are NOT sorted in the compared order
+   — the situation of backup-written trees before fix 54f57aa when names need escaping (here: rank 2 =
+   "x\ty" escaped, rank 1 = "xAy"; the tree is stored in raw order [2; 1]): merging the tree with itself
+   lists every name twice.  Replayed on the real code (corpus.txt line 1 before the fix; M cases with
+   unsorted inputs in every run). *)
+Definition t_unsorted : tree := [f 2 5 11 []; f 1 5 12 []].
+Example merge_loop_unsorted_duplicates :
+  merge_loop cmp_mtime [t_unsorted; t_unsorted] = [f 2 5 11 []; f 1 5 12 []; f 2 5 11 []; f 1 5 12 []].
+Proof. vm_compute. reflexivity. Qed.
+(* on sorted inputs the loop and the abstract k-way merge agree (here; tested on every generated case) *)
+Example merge_loop_sorted_agrees :
+  merge_loop cmp_mtime [t1; t2] = merge cmp_mtime sched_id [t1; t2] /\
+  merge_loop cmp_mtime [t2; t1] = merge cmp_mtime sched_id [t2; t1].
+Proof. vm_compute. split; reflexivity. Qed.
